@@ -141,6 +141,9 @@ Apply(pre, c) ==
       soft |-> (IF e.typed.open THEN e.typed.errs ELSE {})
                \cup (IF KBase(c.kt) = "comb" /\ c.spk.scheme = "ed" /\ HasKey(pairs2, K_secp256k1)
                      THEN {"SigningError"} ELSE {}),
+      \* the candidate carries a secp256k1 entry while the signer is an ed25519 key of a multi-scheme key type:
+      \* it would be verified against the secp256k1 entry (C11), so signing it cannot yield a valid record
+      shadow |-> KBase(c.kt) = "comb" /\ c.spk.scheme = "ed" /\ HasKey(pairs2, K_secp256k1),
       overflow |-> overflow, idErr |-> idErr, sizeErr |-> size > MaxSize,
       typedErr |-> ~e.typed.open /\ e.typed.errs # {}]
 
